@@ -425,6 +425,7 @@ func (s *simscreen) SetSize(w, h int) {
 		}
 	}
 	s.cursorx, s.cursory = -1, -1
+	s.cursorvis = false
 	s.physw, s.physh = w, h
 	s.front = newc
 	s.resize()
